@@ -172,8 +172,14 @@ func (o *object) call(this Value, argumentList []Value, eval bool, frm frame) Va
 
 		// Enter a scope, name from the native object...
 		rt := o.runtime
-		if rt.scope != nil && !eval {
-			rt.enterFunctionScope(rt.scope.lexical, this)
+		if !eval {
+			// Also when no script is running (a call made through the Go API): without a
+			// scope of its own the call would not count towards the stack depth limit.
+			var outer stasher
+			if rt.scope != nil {
+				outer = rt.scope.lexical
+			}
+			rt.enterFunctionScope(outer, this)
 			rt.scope.frame = frame{
 				native:     true,
 				nativeFile: fn.file,
